@@ -1809,7 +1809,11 @@ pub fn check_reporting(rec: &RunRecord) -> Vec<Violation> {
         }
         let mut any_uncertain_peer = false;
         for p in rec.scenario.peers.iter() {
-            let unreliable = unreliable_from.get(&p.id).map(|u| *u <= step).unwrap_or(false) || frozen.get(&p.id).map(|fs| *fs <= step && step <= drain.saturating_add(1)).unwrap_or(false);
+            // A remote that is replaced under its id while attached, and the one that replaces it: the runtime drops the
+            // links of the first at a moment neither of them sees, and answers what the first still asks for to the second.
+            let in_duplicate = rec.scenario.peers.iter().any(|q| q.reattach_immediately && (q.id == p.id || q.reattach_of == Some(p.id)));
+            let group = aliases(rec, p.id);
+            let unreliable = in_duplicate || unreliable_from.get(&p.id).map(|u| *u <= step).unwrap_or(false) || frozen.get(&p.id).map(|fs| *fs <= step && step <= drain.saturating_add(1)).unwrap_or(false);
             if unreliable {
                 any_uncertain_peer = true;
             }
@@ -1823,7 +1827,7 @@ pub fn check_reporting(rec: &RunRecord) -> Vec<Violation> {
                 let open = by_pl.get(&(p.id, lane.to_string())).copied().unwrap_or(false);
                 if unreliable {
                     // Anything between 0 and "every lane it ever asked about" is possible.
-                    let asked = rec.hist.sent.iter().any(|s| s.peer == p.id && s.epoch == 0 && s.start <= step && matches!(&s.op, Op::Link { lane: l } | Op::Sync { lane: l } if l == lane));
+                    let asked = rec.hist.sent.iter().any(|s| group.contains(&s.peer) && s.epoch == 0 && s.start <= step && matches!(&s.op, Op::Link { lane: l } | Op::Sync { lane: l } if l == lane));
                     if asked || open {
                         *maybe.entry(lane.to_string()).or_insert(0) += 1;
                     }
@@ -1887,6 +1891,15 @@ pub fn check_reporting(rec: &RunRecord) -> Vec<Violation> {
                 if cmd_sum != cmds {
                     out.push(Violation::new("C20", "C20.command_count", if cmd_sum < cmds { "lost" } else { "extra" }, format!("{lane}: snapshots add up to {cmd_sum} commands but {cmds} command envelopes were delivered")));
                 }
+            }
+        }
+    }
+    // A lane that closed only its request channel (see `check`): the links the runtime told the remotes were closed are
+    // still counted; link counts of such runs form their own class.
+    if rec.scenario.fake.as_ref().map(|f| matches!(f.mode, super::fake::FailMode::CloseInput)).unwrap_or(false) {
+        for v in out.iter_mut() {
+            if matches!(v.rule.as_str(), "C20.link_count" | "C20.aggregate_link_count") {
+                v.sig = format!("C20.lane_input_closed:{}", v.sig);
             }
         }
     }
